@@ -74,20 +74,21 @@ def R1_constants(run):
               detail="0 / 4 / 36 / 52 (+8 = the view's)")
 
 
-def bitmap_updates(facts, fn, label):
+def bitmap_updates(facts, fn, label, pv=None):
     """Bitmap write-backs of update_tick, read with update_tick_bitmap spliced in (a helper call with a literal flag and the same
     update written in place are one text): [(block, "set" | "clear" | "?...", offset term)] for every store of
     to_le_bytes(V) into the bitmap field (Pinocchio view) / into bytes TICK_BITMAP_OFFSET..+16 of the data (Anchor loader), with
     V = bitmap | (1 << offset) or bitmap & !(1 << offset) over the array's own current bitmap."""
-    pv = prov_of(fn)
+    live = (lambda b: pv.flow is None or pv.flow.state_in[b] is not None) if pv is not None else (lambda b: True)
+    pv = pv or prov_of(fn)
     vals = []
     if label == "pinocchio":
         for w in writes.field_stores(facts):
-            if w["fn"] is fn and w["field"] == "tick_bitmap":
+            if w["fn"] is fn and w["field"] == "tick_bitmap" and live(w["block"]):
                 vals.append((w["block"], pv._rvalue(w["rv"], w["block"], w["stmt"], 0)))
     else:
         for bi, t in fn.calls():
-            if (callee_path(t) or "").endswith("copy_from_slice") and not fn.blocks[bi]["c"]:
+            if (callee_path(t) or "").endswith("copy_from_slice") and not fn.blocks[bi]["c"] and live(bi):
                 dst = pv.operand(t["a"][0], bi, len(fn.blocks[bi]["s"]))
                 rg = [x for x in subterms(dst) if x[0] == "agg" and x[1].endswith("Range")]
                 if len(rg) == 1 and const_val(dict(rg[0][3])["start"]) == 36 and mentions(dst, lambda x: x[0] == "field" and x[2] == "0"):
@@ -118,6 +119,37 @@ def bitmap_updates(facts, fn, label):
     return out
 
 
+def _anchor_was_initialized(facts):
+    """Term test for `the slot was initialised` on the Anchor loader: +1 when the term is true exactly for an initialised slot, -1
+    when exactly for an uninitialised one, else None. Forms: Tick::from(DynamicTick::deserialize(..)?).initialized, and the
+    variant test discriminant(DynamicTick::deserialize(..)?) ==/!= K."""
+    discr = dict((v, n) for n, v in (facts.adts.get("state::dynamic_tick_array::DynamicTick") or {}).get("discrs", []))
+
+    def test(t):
+        t = strip(t)
+        des = lambda x: mentions(x, lambda s: s[0] == "call" and "deserialize" in s[1])
+        if t[0] == "field" and t[2] == "initialized" and des(t):
+            return 1
+        if t[0] == "bin" and t[1] in ("Eq", "Ne"):
+            for (a, b) in ((strip(t[2]), t[3]), (strip(t[3]), t[2])):
+                if a[0] == "discr" and des(a) and const_val(b) is not None:
+                    name = discr.get(str(const_val(b)))
+                    if name in ("Initialized", "Uninitialized"):
+                        pos = (name == "Initialized") == (t[1] == "Eq")
+                        return 1 if pos else -1
+        return None
+    return test
+
+
+def _pino_was_initialized(t):
+    """ticks[byte_offset(..)] != 0 (+1) / == 0 (-1)."""
+    t = strip(t)
+    if t[0] == "bin" and t[1] in ("Ne", "Eq") and mentions(t, lambda s: s[0] == "index" and mentions(s, lambda x: x[0] == "call" and x[1].endswith("byte_offset"))):
+        if const_val(t[2]) == 0 or const_val(t[3]) == 0:
+            return 1 if t[1] == "Ne" else -1
+    return None
+
+
 def _update_tick_model(run, fn, label, init_test, upd_init):
     """Common pairing check. init_test(term) recognises `slot was initialised`; upd_init(term) recognises update.initialized."""
     facts = run.facts
@@ -135,17 +167,115 @@ def _update_tick_model(run, fn, label, init_test, upd_init):
     run.check("R2", "bitmap-flags@" + label, ok, "%s: bitmap updates do not set once and clear once (%s)" % (fn.path, [c[1] for c in bm]), loc=fn.loc(), detail="bitmap | (1 << offset) once and bitmap & !(1 << offset) once")
     if not ok:
         return
-    for name, rot, bmc in (("init", rr[0], set_call[0]), ("deinit", rl[0], clr_call[0])):
+    # what runs for each of the four (slot was initialised, update.initialized) cases: the branch tests on the two flags (in
+    # any combination: `!was && upd`, `was != upd` then `upd`, a match on the deserialised variant ..) are decided per case and
+    # the rest of the flow graph is kept whole
+    by_block = {at.block: at for at in A.atoms(fn)}
+
+    def ev(t, was, upd):
+        t = strip(t)
+        w = init_test(t)
+        if w in (1, True):
+            return was
+        if w == -1:
+            return not was
+        if upd_init(t):
+            return upd
+        if t[0] == "un" and t[1] == "Not":
+            v = ev(t[2], was, upd)
+            return None if v is None else not v
+        if t[0] == "bin" and t[1] in ("Eq", "Ne"):
+            a, b = ev(t[2], was, upd), ev(t[3], was, upd)
+            if a is None or b is None:
+                ca, cb = const_val(t[2]), const_val(t[3])
+                if a is not None and isinstance(cb, (bool, int)) and cb in (0, 1, True, False):
+                    b = bool(cb)
+                elif b is not None and isinstance(ca, (bool, int)) and ca in (0, 1, True, False):
+                    a = bool(ca)
+                else:
+                    return None
+            return (a == b) if t[1] == "Eq" else (a != b)
+        return None
+
+    def pruned(was, upd):
+        succ = {}
+        for b in range(len(fn.blocks)):
+            at = by_block.get(b)
+            nx = list(fn.succ()[b])
+            if at is not None:
+                v = ev(at.term, was, upd)
+                if v is not None:
+                    nx = list(at.true_targets if v else at.false_targets)
+            else:
+                tt = fn.blocks[b]["t"]
+                if tt["k"] == "switch" and tt.get("dt") != "bool":
+                    # a match on the deserialised slot itself
+                    term = strip(pv.operand(tt["d"], b, len(fn.blocks[b]["s"])))
+                    dl = [st["rv"]["discr"] for st in fn.blocks[b]["s"] if st["k"] == "=" and "discr" in st["rv"]]
+                    own = bool(dl) and not dl[-1].get("p") and fn.locals[dl[-1]["l"]]["t"].endswith("DynamicTick")
+                    if term[0] == "discr" and own:
+                        w = init_test(("bin", "Eq", term, ("const", 1, None, None)))
+                        if w in (1, -1):
+                            want = "1" if (was == (w == 1)) else "0"
+                            arms = dict((str(v_), x) for v_, x in tt["ts"])
+                            nx = [arms.get(want, tt["o"])]
+            succ[b] = nx
+        return succ
+
+    def reach_in(succ, start, cut=()):
+        seen, todo = set(), [start]
+        while todo:
+            x = todo.pop()
+            if x in seen or x in cut:
+                continue
+            seen.add(x)
+            todo.extend(succ[x])
+        return seen
+    errs = cfg.err_assign_blocks(fn)
+    rets = {b for b, bb in enumerate(fn.blocks) if bb["t"]["k"] == "ret"}
+    table = {}
+    for was in (False, True):
+        for upd in (False, True):
+            succ = pruned(was, upd)
+            R = reach_in(succ, 0)
+            row = {}
+            # the bitmap value stored in this case (one store may serve both directions: `if flag { bm | m } else { bm & !m }`)
+            asm = [(at, ev(at.term, was, upd)) for at in by_block.values() if at.block in R and ev(at.term, was, upd) is not None]
+            bm_case = bitmap_updates(facts, fn, label, pv=prov_assuming(fn, asm)) if asm else bm
+            where = {"rotate_right": {rr[0][0]}, "rotate_left": {rl[0][0]},
+                     "set": {b for (b, kind, _) in bm_case if kind == "set"}, "clear": {b for (b, kind, _) in bm_case if kind == "clear"}}
+            for nm, blks in where.items():
+                blks = blks & R
+                where[nm] = blks
+                if not blks:
+                    row[nm] = "never"
+                else:
+                    skip = reach_in(succ, 0, cut=set(errs) | blks)
+                    row[nm] = "may" if (skip & rets) else "always"
+            table[(was, upd)] = (row, succ, where)
+    for name, rot, bmc, rname, bname in (("init", rr[0], set_call[0], "rotate_right", "set"), ("deinit", rl[0], clr_call[0], "rotate_left", "clear")):
         rb = rot[0]
         bb = bmc[0]
-        # control-equivalent: each dominates / is reached from the other without an intervening branch that can skip it
-        # (the two touch disjoint bytes - header bitmap vs slot data - so either order is the same update)
-        first, second = (rb, bb) if cfg.dominates(fn, rb, bb) else (bb, rb)
-        ce = cfg.dominates(fn, first, second) and second in cfg.reach(fn, first)
-        # stronger: every path from the first of the two to a return passes the other
-        ret_without = any(fn.blocks[b]["t"]["k"] == "ret" for b in cfg.reach(fn, first, cut_blocks=[second]))
-        run.check("R2", "paired:%s@%s" % (name, label), ce and not ret_without, "%s: the %s rotation can happen without the matching bitmap update" % (fn.path, "right" if name == "init" else "left"),
-                  loc=fn.loc(rot[1]["l"]), detail="rotation => bitmap %s on every path" % ("set" if name == "init" else "clear"))
+        want = (False, True) if name == "init" else (True, False)
+        # the rotation runs in exactly its own case
+        wrong = [("was_initialized=%s, update.initialized=%s: %s" % (k[0], k[1], row[rname])) for k, (row, _, _) in sorted(table.items())
+                 if row[rname] != ("always" if k == want else "never")]
+        run.check("R2", "condition:%s@%s" % (name, label), not wrong, "%s: the %s rotation must run exactly when (was_initialized, update.initialized) = %s; found %s" % (fn.path, name, want, "; ".join(wrong)),
+                  loc=fn.loc(), detail="was_initialized=%s && update.initialized=%s (decided for all four cases)" % want)
+        # and always together with its bitmap update: in every case the two run on the same paths
+        unpaired = []
+        for k, (row, succ, where) in sorted(table.items()):
+            if row[rname] != row[bname]:
+                unpaired.append("%s: rotation %s, bitmap %s %s" % (k, row[rname], bname, row[bname]))
+                continue
+            if row[rname] == "never":
+                continue
+            for (X, Y) in ((where[rname], where[bname]), (where[bname], where[rname])):
+                for x in X - Y:
+                    if x in reach_in(succ, 0, cut=Y) and (reach_in(succ, x, cut=set(errs) | Y) & rets):
+                        unpaired.append("%s: a successful path runs block %d without block(s) %s" % (k, x, sorted(Y)))
+        run.check("R2", "paired:%s@%s" % (name, label), not unpaired, "%s: the %s rotation can happen without the matching bitmap update (%s)" % (fn.path, "right" if name == "init" else "left", "; ".join(unpaired[:3])),
+                  loc=fn.loc(rot[1]["l"]), detail="rotation <=> bitmap %s on every path of every case" % bname)
         # amount 112
         amt = pv.operand(rot[1]["a"][1], rb, len(fn.blocks[rb]["s"]))
         run.check("R2", "amount:%s@%s" % (name, label), const_val(amt) == 112, "%s rotates by %s, expected DynamicTickData::LEN = 112" % (fn.path, sh(amt, 30)), loc=fn.loc(rot[1]["l"]), detail="112 bytes")
@@ -158,24 +288,6 @@ def _update_tick_model(run, fn, label, init_test, upd_init):
         bo = [s for s in subterms(sl) if s[0] == "call" and s[1].endswith("byte_offset")]
         ok = bool(bo) and strip(bo[0][2][1]) == strip(bmc[2])
         run.check("R2", "same-slot:%s@%s" % (name, label), ok, "%s: bitmap bit %s is not the slot whose bytes are rotated" % (fn.path, sh(bmc[2], 40)), loc=fn.loc(), detail="bitmap bit = tick offset of the rotated slot")
-        # guard conditions
-        guards = []
-        for at in A.atoms(fn):
-            t_reach = cfg.reach(fn, at.true_targets[0])
-            f_reach = cfg.reach(fn, at.false_targets[0], cut_blocks=[at.block])
-            if rb in t_reach and rb not in f_reach:
-                guards.append((at, True))
-            elif rb in f_reach and rb not in cfg.reach(fn, at.true_targets[0], cut_blocks=[at.block]):
-                guards.append((at, False))
-        was = upd = None
-        for at, truth in guards:
-            if init_test(at.term):
-                was = truth
-            elif upd_init(at.term):
-                upd = truth
-        want = (False, True) if name == "init" else (True, False)
-        run.check("R2", "condition:%s@%s" % (name, label), (was, upd) == want, "%s: the %s rotation runs under (was_initialized=%s, update.initialized=%s), expected %s" % (fn.path, name, was, upd, want),
-                  loc=fn.loc(), detail="was_initialized=%s && update.initialized=%s" % want)
 
 
 def R2_shift_bitmap_pairing(run):
@@ -185,12 +297,12 @@ def R2_shift_bitmap_pairing(run):
     fn = facts.need_fn(DYN + "::update_tick")
     run.touch(fn)
     _update_tick_model(run, fn, "anchor",
-                       lambda t: strip(t)[0] == "field" and strip(t)[2] == "initialized" and mentions(t, lambda s: s[0] == "call" and "deserialize" in s[1]),
+                       _anchor_was_initialized(facts),
                        lambda t: strip(t)[0] == "field" and strip(t)[2] == "initialized" and is_param(strip(t)[1], "update"))
     fn = facts.need_fn(PDYN + "::update_tick")
     run.touch(fn)
     _update_tick_model(run, fn, "pinocchio",
-                       lambda t: strip(t)[0] == "bin" and strip(t)[1] in ("Ne", "Eq") and mentions(t, lambda s: s[0] == "index" and mentions(s, lambda x: x[0] == "call" and x[1].endswith("byte_offset"))),
+                       _pino_was_initialized,
                        lambda t: (strip(t)[0] == "field" and strip(t)[2] == "initialized" and is_param(strip(t)[1], "update")))
     # written length: 113 iff update.initialized else 1 (Anchor); Pinocchio: tag := 0 or MemoryMappedTick::update on a 113-byte window
     fn = facts.need_fn(DYN + "::update_tick")
